@@ -64,7 +64,7 @@ def ops06 : List (String × Op) := [
   ("spm_isequal", fun j => do
     let M ← field j "M" >>= asSptenmat
     let N ← field j "N" >>= asSptenmat
-    .ok (Json.mkObj [("equal", Json.bool (M.isequal N))])),
+    .ok (exceptJ (fun b => Json.mkObj [("equal", Json.bool b)]) (M.isequal N))),
   ("sp_copy", fun j => do
     let S ← field j "S" >>= asSparse
     .ok (exceptJ sparseJ S.copy))
